@@ -99,6 +99,13 @@ func staleLoopTables(fn *ssa.Function) []loopTable {
 						if elem == nil {
 							continue
 						}
+						// the element of this iteration's own index (mask[site] written and read by
+						// iteration `site`) carries nothing from another iteration
+						if u, ok := elem.(*ssa.UnOp); ok {
+							if ia, ok := u.X.(*ssa.IndexAddr); ok && ownIndexOf(lp, stripConv(ia.Index)) {
+								continue
+							}
+						}
 						if reachesCondition(elem, lp, 0, map[ssa.Value]bool{}) {
 							decision = in
 						}
@@ -264,4 +271,38 @@ func (c *Ctx) checkLoopTables(rule string, rels ...string) {
 			fmt.Sprintf("%d table(s) created before the loop (at %v) are updated and consulted inside it without being emptied at the start of each iteration (%d listed for this function): what an earlier iteration counted is still there for the later ones", len(byFn[n]), byFn[n], al.n))
 	}
 	L.OK(rule, "scope", fmt.Sprintf("packages %v", rels), "-", fmt.Sprintf("%d loops examined", nLoops))
+}
+
+// ownIndexOf: v is the induction variable of lp (header φ stepped by a constant) or φ+1 of the
+// range form.
+func ownIndexOf(lp *loop, v ssa.Value) bool {
+	isIV := func(p *ssa.Phi) bool {
+		if p.Block() != lp.Head {
+			return false
+		}
+		for i, e := range p.Edges {
+			if !lp.Blocks[lp.Head.Preds[i]] {
+				continue
+			}
+			bo, ok := e.(*ssa.BinOp)
+			if !ok || (bo.Op != token.ADD && bo.Op != token.SUB) || bo.X != ssa.Value(p) {
+				return false
+			}
+			if _, isK := constInt(bo.Y); !isK {
+				return false
+			}
+		}
+		return true
+	}
+	if p, ok := v.(*ssa.Phi); ok {
+		return isIV(p)
+	}
+	if bo, ok := v.(*ssa.BinOp); ok && bo.Op == token.ADD {
+		if p, ok := bo.X.(*ssa.Phi); ok && isIV(p) {
+			if k, ok := constInt(bo.Y); ok && k == 1 {
+				return true
+			}
+		}
+	}
+	return false
 }
